@@ -1233,7 +1233,11 @@ func jbLayoutCase(cx *lib.Ctx, r *lib.Rand) {
 			cx.Res.Fail(lib.Failure{Kind: "oracle", Key: "json-native-differ", Desc: "an admissible JSON layout and the native text of the configuration it denotes are read differently under the schema tree\n-- json:\n" + jsrc + "\n-- native:\n" + nsrc, Input: line, Impl: "json: " + implJ + "\nnative: " + implN})
 		}
 	} else if implJ != implN {
-		cx.Res.Count("corr-jbody:layout:inadmissible-and-read-differently")
+		if adm {
+			cx.Res.Count("corr-jbody:layout:admissible-under-ill-formed-schema-and-read-differently")
+		} else {
+			cx.Res.Count("corr-jbody:layout:inadmissible-and-read-differently")
+		}
 	}
 }
 
